@@ -140,12 +140,12 @@ func c08(c *Ctx) {
 		skipModel := func(i int) bool { return keepEvery > 1 && i < exhaustive && i%keepEvery != 0 || len(inputs[i]) > 16384 }
 		var err error
 		model, err = h.RunModel(c.Driver, lines)
+		c.CrossAll(lines, model) // (line, answer) pairs as the driver gave them, placeholders included
 		for i := range model {
 			if skipModel(i) {
 				model[i] = "declined sampled-out"
 			}
 		}
-		c.CrossAll(lines, model)
 		if err != nil {
 			fmt.Println(err)
 			model = nil
